@@ -147,10 +147,16 @@ func saveErr(call *ssa.Call) ssa.Value {
 	if res.Len() == 1 {
 		return call
 	}
-	// find Extract of the last index
-	if refs := call.Referrers(); refs != nil {
+	// find Extract of the (last) error-typed result
+	ei := -1
+	for i := 0; i < res.Len(); i++ {
+		if eng.IsErrorType(res.At(i).Type()) {
+			ei = i
+		}
+	}
+	if refs := call.Referrers(); refs != nil && ei >= 0 {
 		for _, r := range *refs {
-			if ex, ok := r.(*ssa.Extract); ok && ex.Index == res.Len()-1 {
+			if ex, ok := r.(*ssa.Extract); ok && ex.Index == ei {
 				return ex
 			}
 		}
